@@ -11,7 +11,9 @@ Stages (run(ctx)):
   D      option parsing (parser.generate_code) vs the model on option strings
 """
 import json
+import keyword
 import os
+import re
 import sys
 import time
 import traceback
@@ -20,7 +22,7 @@ from concurrent.futures import ThreadPoolExecutor
 from .. import lib
 from .. import plugin_util as PU
 from .. import c18_protogen as G
-# from .. import gen_c18 as T1
+from .. import gen_c18 as T1
 
 VARIANTS = [(t, p) for t in ("direct", "root", "310") for p in (False, True)]
 
@@ -218,14 +220,875 @@ def worker_main(job_path):
     json.dump(out, open(job["out"], "w"))
 
 
+
+# ======================================================================================
+# Gallina literals
+# ======================================================================================
+IMPORTS = "Model.Types Model.Typing Proofs.TypingP"
+IMPORTS_MODEL = "Model.Types Model.Typing"
+COMP = {"direct": "CDirect", "root": "CRoot", "310": "C310"}
+PTYPE = {"double": "TDouble", "float": "TFloat", "int32": "TInt32", "int64": "TInt64", "uint32": "TUInt32",
+         "uint64": "TUInt64", "sint32": "TSInt32", "sint64": "TSInt64", "fixed32": "TFixed32", "fixed64": "TFixed64",
+         "sfixed32": "TSFixed32", "sfixed64": "TSFixed64", "bool": "TBool", "string": "TString", "bytes": "TBytes",
+         "enum": "TEnum", "message": "TMessage"}
+PYSCALAR = {"double": "float", "float": "float", "bool": "bool", "string": "str", "bytes": "bytes"}
+
+
+def cs(s):
+    return lib.coq_bytes(s.encode("utf-8"))
+
+
+def cb(s):
+    return lib.cb(s.encode("utf-8"))
+
+
+def copt_cb(s):
+    return lib.CN if s is None else cb(s)
+
+
+def have_proofs():
+    """Proofs/TypingP.vo is there and current (it is not when the build broke before reaching it)"""
+    vo = os.path.join(lib.COQ, "Proofs", "TypingP.vo")
+    try:
+        return (os.path.getmtime(vo) >= os.path.getmtime(os.path.join(lib.COQ, "Proofs", "TypingP.v"))
+                and os.path.getmtime(vo) >= os.path.getmtime(os.path.join(lib.COQ, "Model", "Typing.vo")))
+    except OSError:
+        return False
+
+
+def coq_opts(v):
+    return f"{{| o_compiler := {COMP[v[0]]}; o_pydantic := {lib.coq_bool(v[1])} |}}"
+
+
+def coq_ty(t):
+    k = t[0]
+    if k == "name":
+        return f"(TName {cs(t[1])})"
+    if k == "ref":
+        return f"(TRef {cs(t[1])})"
+    if k == "dict":
+        return f"(TDict {coq_ty(t[1])} {coq_ty(t[2])})"
+    if k == "union":
+        return "(TUnion [" + "; ".join(coq_ty(x) for x in t[1]) + "])"
+    ctor = {"optional": "TOptional", "list": "TList", "iterable": "TIterable", "async_iterable": "TAsyncIterable",
+            "async_iterator": "TAsyncIterator"}[k]
+    return f"({ctor} {coq_ty(t[1])})"
+
+
+def real_print(c, t):
+    k = t[0]
+    if k == "name":
+        return t[1]
+    if k == "ref":
+        return '"' + t[1] + '"'
+    if k == "dict":
+        a = real_print(c, t[1])
+        b = real_print(c, t[2])
+        return c.dict(a, b)
+    if k == "union":
+        return c.union(*[real_print(c, x) for x in t[1]])
+    return getattr(c, k)(real_print(c, t[1]))
+
+
+NAMES = ["int", "float", "str", "bytes", "bool", "datetime", "timedelta", "Foo", "Msg0", "_beta_deep__.Other",
+         "betterproto_lib_google_protobuf.Empty", "builtins.int", "grpclib.const.Handler", "x9.Y_z", "A", "_", "__a__.B"]
+
+
+def rand_ty(rng, depth, wf_for=None):
+    """random type AST; with wf_for set only shapes that are well-formed for every compiler are produced"""
+    r = rng.random()
+    if depth <= 0 or r < 0.3:
+        if rng.random() < 0.5 or (wf_for and depth < 0):
+            return ("name", rng.choice(NAMES))
+        return ("ref", rng.choice(NAMES))
+    k = rng.choice(["optional", "list", "dict", "union", "iterable", "async_iterable", "async_iterator", "optional", "list"])
+    if k == "dict":
+        key = ("name", rng.choice(NAMES)) if (wf_for or rng.random() < 0.8) else rand_ty(rng, depth - 1)
+        return ("dict", key, rand_ty(rng, depth - 1, wf_for))
+    if k == "union":
+        n = rng.choice([1, 2, 2, 3]) if wf_for else rng.choice([0, 1, 2, 2, 3])
+        return ("union", [rand_ty(rng, depth - 1, wf_for) for _ in range(n)])
+    if k in ("iterable", "async_iterable", "async_iterator"):
+        if wf_for or rng.random() < 0.7:
+            return (k, ("name", rng.choice(NAMES)))
+        return (k, rand_ty(rng, depth - 1))
+    return (k, rand_ty(rng, depth - 1, wf_for))
+
+
+# ======================================================================================
+# CPython's own evaluation of annotation text (T3 for the denotation)
+# ======================================================================================
+class _NS:
+    pass
+
+
+def py_denote(text):
+    """evaluate `def f(x: <text>)` and resolve it with typing.get_type_hints; returns the canonical alternatives
+    list (as _canon_type does, with dummy classes named by their source identifier) or None when CPython rejects"""
+    import re
+    import typing
+    import collections.abc as cabc
+
+    ns = {"typing": typing, "Optional": typing.Optional, "List": typing.List, "Dict": typing.Dict, "Union": typing.Union,
+          "Iterable": typing.Iterable, "AsyncIterable": typing.AsyncIterable, "AsyncIterator": typing.AsyncIterator,
+          "__builtins__": {"list": list, "dict": dict, "None": None}}
+    reserved = {"typing", "Optional", "List", "Dict", "Union", "Iterable", "AsyncIterable", "AsyncIterator", "list", "dict", "None"}
+    for ident in set(re.findall(r"[A-Za-z_][A-Za-z0-9_]*(?:\.[A-Za-z_][A-Za-z0-9_]*)*", text)):
+        parts = ident.split(".")
+        if parts[0] in reserved:
+            continue
+        cur = ns
+        for i, p in enumerate(parts):
+            last = i == len(parts) - 1
+            if isinstance(cur, dict):
+                nxt = cur.get(p)
+            else:
+                nxt = getattr(cur, p, None)
+            if nxt is None:
+                nxt = type("D", (), {"__ident__": ident}) if last else _NS()
+                if last:
+                    nxt.__qualname__ = ident
+                if isinstance(cur, dict):
+                    cur[p] = nxt
+                else:
+                    setattr(cur, p, nxt)
+            cur = nxt
+    try:
+        code = compile(f"def f(x: {text}): pass\n", "<ann>", "exec")
+    except (SyntaxError, ValueError):
+        return None
+    try:
+        exec(code, ns)
+        h = typing.get_type_hints(ns["f"], ns, {})["x"]
+    except Exception:  # noqa  NameError / TypeError / SyntaxError inside a string annotation
+        return None
+    return _canon_py(h)
+
+
+def _canon_py(t):
+    c = _canon_type(t, "\0none")
+    return c
+
+
+def cv_alts(h, name_of):
+    """canonical alternatives list -> cv literal (same shape as Model.Typing.cv_of_sty)"""
+    out = []
+    for a in h:
+        k = a[0]
+        if k == "none":
+            out.append("(CL [CZ 0])")
+        elif k == "cls":
+            out.append(f"(CL [CZ 1; {cb(name_of(a[1], a[2]))}])")
+        elif k == "list":
+            out.append(f"(CL [CZ 2; {cv_alts(a[1], name_of)}])")
+        elif k == "dict":
+            out.append(f"(CL [CZ 3; {cv_alts(a[1], name_of)}; {cv_alts(a[2], name_of)}])")
+        elif k in ("iterable", "asynciterable", "asynciterator"):
+            tag = {"iterable": 4, "asynciterable": 5, "asynciterator": 6}[k]
+            out.append(f"(CL [CZ {tag}; {cv_alts(a[1], name_of)}])")
+        else:
+            out.append(f"(CL [CZ 99; {cb(repr(a))}])")
+    return "(CL [" + "; ".join(out) + "])"
+
+
+# ======================================================================================
+# stage A + B
+# ======================================================================================
+def stage_compilers(ctx):
+    rng = ctx.rng
+    n = 120 if not ctx.thorough else 900
+    asts = []
+    # systematic: every operator over every leaf kind, two levels
+    leaves = [("name", "int"), ("ref", "Foo"), ("ref", "_p__.Bar"), ("name", "builtins.int")]
+    ops1 = ["optional", "list", "iterable", "async_iterable", "async_iterator"]
+    for l in leaves:
+        asts.append(l)
+        for o in ops1:
+            asts.append((o, l))
+            for o2 in ("optional", "list"):
+                asts.append((o2, (o, l)))
+        asts.append(("dict", ("name", "str"), l))
+        asts.append(("dict", l, ("name", "str")))
+        asts.append(("union", [l, ("name", "None0")]))
+        asts.append(("union", [l]))
+        asts.append(("optional", ("union", [l, ("ref", "Q")])))
+        asts.append(("union", [("optional", l), ("list", l)]))
+        asts.append(("list", ("dict", ("name", "int"), ("optional", l))))
+    asts.append(("union", []))
+    asts.append(("union", [("async_iterable", ("name", "M")), ("iterable", ("name", "M"))]))
+    for _ in range(n):
+        asts.append(rand_ty(rng, rng.choice([1, 2, 3, 4]), wf_for=rng.random() < 0.6))
+    pairs, descr = [], []
+    texts = []
+    for t in asts:
+        ctx.seen_nontrivial(("ast", repr(t)))
+        ctx.count("ast:" + t[0])
+        for opt in ("direct", "root", "310"):
+            c = T1.compiler_for(opt)
+            try:
+                real = real_print(c, t)
+                lines = list(c.import_lines())
+            except Exception as e:  # noqa
+                ctx.fail("oracle", "a typing compiler method raised", cls="compiler-raised", input={"ast": t, "compiler": opt}, error=repr(e))
+                continue
+            pairs.append((f"CB (print {COMP[opt]} {coq_ty(t)})", cb(real)))
+            descr.append(("print", opt, t, real))
+            pairs.append((f"cstrs (import_lines {COMP[opt]} (ty_adds {COMP[opt]} {coq_ty(t)}))", lib.cl([cb(x) for x in lines])))
+            descr.append(("import_lines", opt, t, lines))
+            texts.append((opt, t, real))
+    ctx.cov["evaluations"] += len(pairs)
+    bad = lib.coq_compare(ctx, "c18a", IMPORTS_MODEL, pairs)
+    ctx.cov["disagreements_checked"] += len(pairs)
+    for i in bad[:10]:
+        ctx.fail("corr", f"model and implementation disagree on {descr[i][0]}", cls="compiler-text", input={"compiler": descr[i][1], "ast": descr[i][2]},
+                 observed_impl=descr[i][3], expected_model=lib.coq_eval(ctx, IMPORTS_MODEL, pairs[i][0]),
+                 theorem_or_correspondence="T2 Model/Typing.v print/import_lines <-> plugin/typing_compiler.py")
+    ctx.sample({"stage": "A", "ast": asts[40], "texts": [x[2] for x in texts if x[1] is asts[40]]})
+
+    # ---- B: denote vs CPython
+    pairs, descr = [], []
+    seen = set()
+
+    def add(text, why):
+        if text in seen:
+            return
+        seen.add(text)
+        h = py_denote(text)
+        exp = lib.CN if h is None else cv_alts(h, lambda mod, name: name)
+        pairs.append((f"copt cv_py_norm (denote {cs(text)})", exp))
+        descr.append((text, why, h))
+        ctx.count("denote:" + ("accepted" if h is not None else "rejected"))
+
+    oneway = []
+    for opt, t, real in texts:
+        add(real, "printer output")
+        add('"' + real + '"', "KQuote site")
+        add('"' + real.strip('"') + '"', "KQuoteStrip site")
+        # single-character damage: CPython must reject whatever denote rejects is NOT required; but whatever
+        # denote accepts must evaluate to the same type in CPython
+        if len(real) > 3 and rng.random() < 0.5:
+            i = rng.randrange(len(real))
+            for mut in (real[:i] + real[i + 1:], real[:i] + rng.choice('"[],|') + real[i:]):
+                # (not a statement about Python keywords: a deletion can turn `int` into `in`)
+                if mut not in seen and not (set(re.findall(r"[A-Za-z_]+", mut)) & set(keyword.kwlist)):
+                    seen.add(mut)
+                    oneway.append(mut)
+    ctx.cov["evaluations"] += len(pairs)
+    bad = lib.coq_compare(ctx, "c18b", IMPORTS_MODEL, pairs)
+    for i in bad[:10]:
+        ctx.fail("corr", "the denotation disagrees with CPython's evaluation of the same annotation text", cls="denote-vs-cpython",
+                 input={"text": descr[i][0], "origin": descr[i][1]}, observed_impl=descr[i][2],
+                 expected_model=lib.coq_eval(ctx, IMPORTS_MODEL, pairs[i][0]),
+                 theorem_or_correspondence="T3 Model/Typing.v denote <-> typing.get_type_hints")
+    # one-way on damaged text: encode CPython's verdict so that (model None) always matches
+    pairs2, d2 = [], []
+    for mut in oneway:
+        h = py_denote(mut)
+        exp = lib.CN if h is None else cv_alts(h, lambda mod, name: name)
+        pairs2.append((f"match denote {cs(mut)} with None => {exp} | Some s => cv_py_norm s end", exp))
+        d2.append((mut, h))
+    ctx.cov["evaluations"] += len(pairs2)
+    bad = lib.coq_compare(ctx, "c18b2", IMPORTS_MODEL, pairs2)
+    ctx.count("denote:damaged", len(pairs2))
+    for i in bad[:10]:
+        ctx.fail("corr", "the denotation accepts damaged annotation text with a type CPython does not give it", cls="denote-vs-cpython-damaged",
+                 input={"text": d2[i][0]}, observed_impl=d2[i][1], expected_model=lib.coq_eval(ctx, IMPORTS_MODEL, f"denote {cs(d2[i][0])}"),
+                 theorem_or_correspondence="T3 Model/Typing.v denote <-> typing.get_type_hints")
+    ctx.sample({"stage": "B", "text": descr[7][0], "cpython": descr[7][2]})
+
+
+# ======================================================================================
+# stage C: translation validation
+# ======================================================================================
+def type_identity(tn, types_pkg):
+    """proto full name -> (module path relative to the root package | betterproto lib module, class name)"""
+    from betterproto.compile.naming import pythonize_class_name
+
+    if tn.startswith(".google.protobuf."):
+        return ("betterproto.lib.google.protobuf", tn.rsplit(".", 1)[1])
+    pkg = types_pkg[tn]
+    rel = tn[len(pkg) + 2:]
+    return (pkg, pythonize_class_name("_" + rel.replace(".", "_")))
+
+
+def ref_of(tn, pkg):
+    """(Coq gref literal, reference string without quotes for the standard variant, is_google)"""
+    from betterproto.compile.importing import get_type_reference
+    from betterproto.plugin.typing_compiler import DirectImportTypingCompiler
+
+    if tn.startswith(".google.protobuf."):
+        g = tn.rsplit(".", 1)[1]
+        if g in G.WRAPPERS:
+            return f"(RWrapper {cs(g)})", None
+        if g == "Duration":
+            return "RDuration", None
+        if g == "Timestamp":
+            return "RTimestamp", None
+        return f"(RGoogle {cs(g)})", None
+    r = get_type_reference(package=pkg, imports=set(), source_type=tn, typing_compiler=DirectImportTypingCompiler(), pydantic=False)
+    return f"(RLocal {cs(r.strip(chr(34)))})", r.strip('"')
+
+
+def coq_ftype(kind, tn, pkg):
+    if kind in ("enum", "message"):
+        lit, _ = ref_of(tn, pkg)
+        return f"{{| ft_type := {PTYPE[kind]}; ft_ref := Some {lit} |}}"
+    return f"{{| ft_type := {PTYPE[kind]}; ft_ref := None |}}"
+
+
+def py_type_text(kind, tn, pkg):
+    """text of FieldCompiler.py_type under the direct compiler (only used for the use_builtins rule)"""
+    if kind in ("enum", "message"):
+        return "<ref>"
+    return PYSCALAR.get(kind, "int")
+
+
+def message_fields(m, pkg):
+    """[(field dict, py_name, Coq fdesc literal)] in declaration order, with FieldCompiler.use_builtins replicated"""
+    from betterproto.compile.naming import pythonize_field_name
+
+    bnames = G.builtin_names()
+    builtins_types = set()
+    out = []
+    for f in m["fields"]:
+        py_name = pythonize_field_name(f["name"])
+        ptext = py_type_text(f["kind"], f["type_name"], pkg)
+        flag = f["label"] != "map" and (ptext in builtins_types or (ptext == py_name and py_name in bnames))
+        if py_name in bnames:
+            builtins_types.add(py_name)
+        lab = {"single": "LSingle", "optional": "LOptional", "repeated": "LRepeated"}.get(f["label"])
+        if f["label"] == "oneof":
+            lab = f"(LOneof {cs(f['oneof'])})"
+        elif f["label"] == "map":
+            lab = f"(LMap {coq_ftype(f['map_key'], None, pkg)})"
+        lit = (f"{{| fd_name := {cs(py_name)}; fd_number := ({f['number']})%Z; fd_type := {coq_ftype(f['kind'], f['type_name'], pkg)}; "
+               f"fd_label := {lab}; fd_builtins := {lib.coq_bool(flag)} |}}")
+        out.append((f, py_name, lit, flag))
+    return out
+
+
+def expected_hint_names(f, pkg, types_pkg, flag):
+    """(module, class) -> the name the model's denotation uses for it, for one field"""
+    names = {("builtins", "int"): "int", ("builtins", "float"): "float", ("builtins", "bool"): "bool",
+             ("builtins", "str"): "str", ("builtins", "bytes"): "bytes",
+             ("datetime", "datetime"): "datetime", ("datetime", "timedelta"): "timedelta"}
+    if flag:
+        names = {k: ("builtins." + v if k[0] == "builtins" else v) for k, v in names.items()}
+    return names
+
+
+def run_variants(ctx, schemas, tag):
+    """generate + import the six variants of a batch of schemas; returns (sources, worker outputs)"""
+    from betterproto.compile.naming import pythonize_class_name, pythonize_method_name
+
+    files = {}
+    for s in schemas:
+        files.update(s["files"])
+    base = ctx.work
+    PU.shim_dir(base)
+
+    def gen(v):
+        try:
+            return PU.generate(base, files, f"c18{tag}_{vname(v)}", vopts(v))
+        except Exception as e:  # noqa
+            return 99, f"{type(e).__name__}: {e}", None
+
+    with ThreadPoolExecutor(6) as ex:
+        gens = list(ex.map(gen, VARIANTS))
+    types_pkg, typemap, types, services, values, packages = {}, {}, {}, {}, [], []
+    for s in schemas:
+        for pname, p in s["packages"].items():
+            packages.append(pname)
+            if p["services"]:
+                services[pname] = {pythonize_class_name(sv["name"]): [pythonize_method_name(m["name"]) for m in sv["methods"]]
+                                   for sv in p["services"]}
+        for full, (kd, pkg, d) in G._all_types(s["packages"]).items():
+            types_pkg[full] = pkg
+            typemap[full] = list(type_identity(full, {full: pkg}))
+            types[full] = kd
+        for case in s.get("values", []):
+            values.append(case)
+
+    def work(v):
+        root = f"c18{tag}_{vname(v)}"
+        tm = dict(typemap)
+        for g in G.GOOGLE_IMPORT:
+            tm[".google.protobuf." + g] = ["betterproto.lib.pydantic.google.protobuf" if v[1] else "betterproto.lib.google.protobuf", g]
+        job = {"root": root, "pydantic": v[1], "packages": packages, "typemap": tm, "types": types, "services": services,
+               "values": values, "out": os.path.join(base, root + ".out.json")}
+        jp = os.path.join(base, root + ".job.json")
+        json.dump(job, open(jp, "w"))
+        try:
+            rc, out = PU.run_in_subprocess(base, f"from harness.props import c18; c18.worker_main({jp!r})", timeout=900)
+        except Exception as e:  # noqa
+            return None, f"{type(e).__name__}: {e}"
+        if rc != 0 or not os.path.exists(job["out"]):
+            return None, out[-2000:]
+        return json.load(open(job["out"])), ""
+
+    todo = [v for v, g in zip(VARIANTS, gens) if g[0] == 0]
+    with ThreadPoolExecutor(6) as ex:
+        outs = dict(zip([vname(v) for v in todo], ex.map(work, todo)))
+    return gens, outs, types_pkg, values
+
+
+def schema_of(schemas, pkg):
+    for s in schemas:
+        if pkg in s["packages"]:
+            return s
+    return None
+
+
+def stage_translation(ctx, schemas, tag):
+    from betterproto.compile.importing import get_type_reference
+    from betterproto.compile.naming import pythonize_class_name, pythonize_method_name, pythonize_enum_member_name
+    from betterproto.plugin.typing_compiler import DirectImportTypingCompiler
+
+    gens, outs, types_pkg, values = run_variants(ctx, schemas, tag)
+    pairs, descr = [], []
+
+    def add(model, expected, d):
+        pairs.append((model, expected))
+        descr.append(d)
+
+    def small_input(pkg, v, **kw):
+        s = schema_of(schemas, pkg)
+        d = {"files": s["files"] if s else {}, "options": vopts(v), "package": pkg}
+        d.update(kw)
+        return d
+
+    for v, g in zip(VARIANTS, gens):
+        if g[0] != 0:
+            ctx.fail("oracle", "the plugin fails on a schema protoc accepts", cls="plugin-error",
+                     input={"files": {k: t for s in schemas for k, t in s["files"].items()}, "options": vopts(v)}, observed=g[1][-1500:])
+    # ---------------------------------------------------------------- texts: every field line and every site
+    for v, g in zip(VARIANTS, gens):
+        if g[0] != 0:
+            continue
+        vn = vname(v)
+        out_dir = g[2]
+        for s in schemas:
+            for pkg, p in s["packages"].items():
+                path = os.path.join(out_dir, *pkg.split("."), "__init__.py")
+                try:
+                    src = open(path).read()
+                    ex = T1.extract(src)["classes"]
+                except Exception as e:  # noqa
+                    ctx.fail("oracle", "generated module missing or not even tokenisable", cls="module-unreadable",
+                             input=small_input(pkg, v), observed=repr(e))
+                    continue
+                hints = outs.get(vn, (None, ""))[0]
+                for full, pk, m in G.all_messages(s):
+                    if pk != pkg:
+                        continue
+                    cname = type_identity(full, types_pkg)[1]
+                    got = ex.get(cname)
+                    if got is None:
+                        ctx.fail("oracle", "a message of the schema has no class in the generated module", cls="class-missing",
+                                 input=small_input(pkg, v, message=full))
+                        continue
+                    rows = None
+                    if hints and full in hints["classes"] and "rows" in hints["classes"][full]:
+                        rows = {r["number"]: r for r in hints["classes"][full]["rows"]}
+                    fl = message_fields(m, pkg)
+                    if len(fl) != len(got["fields"]):
+                        ctx.fail("oracle", "generated class does not have one line per schema field", cls="field-count",
+                                 input=small_input(pkg, v, message=full), observed=[x[0] for x in got["fields"]])
+                        continue
+                    for (f, py_name, lit, flag), (gname, gann, gval) in zip(fl, got["fields"]):
+                        ctx.count(f"field:{f['label']}:{f['kind']}")
+                        ctx.seen_nontrivial(("field", f["label"], f["kind"], (f["type_name"] or "").split(".")[1:2] == ["google"], f.get("map_key"), vn))
+                        add(f"cstr (field_string {coq_opts(v)} {lit})", cb(f"{gname}: {gann} = {gval}"),
+                            ("field_string", vn, pkg, full, f["name"]))
+                        add(f"cbool (match annotation_ty {lib.coq_bool(v[1])} {lit} with Some t => in_domain {COMP[v[0]]} KRaw t | None => false end)",
+                            lib.cbool(True), ("field in the theorem's domain", vn, pkg, full, f["name"]))
+                        add(f"cv_of_meta (field_meta {coq_opts(v)} {lit})",
+                            None if rows is None or f["number"] not in rows else _meta_cv(rows[f["number"]]),
+                            ("field_meta", vn, pkg, full, f["name"]))
+                        if rows is not None and f["number"] in rows:
+                            # the denotation of the text actually generated = the type the runtime resolved
+                            idn = {}
+                            for kd, tn in ((f["kind"], f["type_name"]),):
+                                if kd in ("enum", "message"):
+                                    lit_r, refs = ref_of(tn, pkg)
+                                    ident = type_identity(tn, types_pkg)
+                                    if refs is None:
+                                        g_ = tn.rsplit(".", 1)[1]
+                                        refs = ("betterproto_lib_pydantic_google_protobuf." if v[1] else "betterproto_lib_google_protobuf.") + g_
+                                    idn[ident] = refs
+                            base_names = expected_hint_names(f, pkg, types_pkg, flag)
+
+                            def name_of(mod, nm, idn=idn, base_names=base_names):
+                                return idn.get((mod, nm)) or base_names.get((mod, nm)) or f"?{mod}.{nm}"
+
+                            add(f"copt cv_py_norm (denote {cs(gann)})", cv_alts(rows[f["number"]]["hint"], name_of),
+                                ("denote=runtime hint", vn, pkg, full, f["name"]))
+                # services
+                for sv in p["services"]:
+                    sname = pythonize_class_name(sv["name"])
+                    stub, basec = ex.get(sname + "Stub"), ex.get(sname + "Base")
+                    if stub is None or basec is None:
+                        ctx.fail("oracle", "a service of the schema has no Stub/Base class in the generated module", cls="class-missing",
+                                 input=small_input(pkg, v, service=sv["name"]))
+                        continue
+                    if sv["methods"]:
+                        add(f"cstr (site_text template_sites {COMP[v[0]]} SMapping [] [])", copt_cb(basec["methods"].get("__mapping__", {}).get("return")),
+                            ("site SMapping", vn, pkg, sv["name"], ""))
+                    for meth in sv["methods"]:
+                        pm = pythonize_method_name(meth["name"])
+                        tin = get_type_reference(package=pkg, imports=set(), source_type=meth["input"], typing_compiler=DirectImportTypingCompiler(),
+                                                 unwrap=False, pydantic=v[1]).strip('"')
+                        tout = get_type_reference(package=pkg, imports=set(), source_type=meth["output"], typing_compiler=DirectImportTypingCompiler(),
+                                                  unwrap=False, pydantic=v[1]).strip('"')
+                        cs_, ss_ = meth["client_streaming"], meth["server_streaming"]
+                        ctx.count(f"method:{'S' if cs_ else 'U'}{'S' if ss_ else 'U'}")
+                        ctx.seen_nontrivial(("method", cs_, ss_, meth["input"].startswith(".google"), meth["output"].startswith(".google"), vn))
+                        sm, bm = stub["methods"].get(pm), basec["methods"].get(pm)
+                        if sm is None or bm is None:
+                            ctx.fail("oracle", "a method of the schema is missing from Stub/Base", cls="class-missing",
+                                     input=small_input(pkg, v, service=sv["name"], method=meth["name"]))
+                            continue
+
+                        def named(mm, nm):
+                            for pn, ann in mm["params"]:
+                                if pn == nm:
+                                    return ann
+                            return None
+
+                        sites = [("SStubReqIter" if cs_ else "SStubReq", sm["params"][1][1] if len(sm["params"]) > 1 else None),
+                                 ("SStubTimeout", named(sm, "timeout")), ("SStubDeadline", named(sm, "deadline")),
+                                 ("SStubMetadata", named(sm, "metadata")),
+                                 ("SStubRetStream" if ss_ else "SStubRet", sm["return"]),
+                                 ("SBaseReqIter" if cs_ else "SBaseReq", bm["params"][1][1] if len(bm["params"]) > 1 else None),
+                                 ("SBaseRetStream" if ss_ else "SBaseRet", bm["return"])]
+                        for site, text in sites:
+                            add(f"cstr (site_text template_sites {COMP[v[0]]} {site} {cs(tin)} {cs(tout)})", copt_cb(text),
+                                ("site " + site, vn, pkg, sv["name"], meth["name"]))
+                            ctx.count("site:" + site)
+    todo = [(m, e, d) for (m, e), d in zip(pairs, descr) if e is not None]
+    imports = IMPORTS
+    if not have_proofs():
+        todo = [x for x in todo if "in_domain" not in x[0]]
+        imports = IMPORTS_MODEL
+        ctx.notes.append("Proofs/TypingP.vo not available: the theorem-domain check of generated annotations was skipped")
+    ctx.cov["evaluations"] += len(todo)
+    bad = lib.coq_compare(ctx, f"c18c{tag}", imports, [(m, e) for m, e, _ in todo])
+    ctx.cov["disagreements_checked"] += len(todo)
+    reported = set()
+    for i in bad:
+        m, e, d = todo[i]
+        if (d[0], d[1]) in reported or len(reported) > 12:
+            continue
+        reported.add((d[0], d[1]))
+        v = [x for x in VARIANTS if vname(x) == d[1]][0]
+        ctx.fail("corr", f"model and generated code disagree on {d[0]}", cls="tv:" + d[0].split(" ")[0], input=small_input(d[2], v, where=list(d[2:])),
+                 observed_impl=e, expected_model=lib.coq_eval(ctx, imports, m),
+                 theorem_or_correspondence="T2 translation validation Model/Typing.v <-> generated module")
+    if todo:
+        ctx.sample({"stage": "C", "case": list(todo[len(todo) // 3][2]), "model_expr": todo[len(todo) // 3][0][:300], "impl": todo[len(todo) // 3][1][:300]})
+
+    # ---------------------------------------------------------------- oracle: imports, tables, enums, values
+    ref_v = VARIANTS[0]
+    ref = outs.get(vname(ref_v), (None, "no output"))[0]
+    for v in VARIANTS:
+        vn = vname(v)
+        d, err = outs.get(vn, (None, "plugin failed"))
+        if d is None:
+            if any(g[0] == 0 for g, vv in zip(gens, VARIANTS) if vv == v):
+                ctx.fail("oracle", "the import worker of a variant crashed", cls="worker-crash", input={"options": vopts(v)}, observed=err[-1500:])
+            continue
+        for pkg, st in d["packages"].items():
+            ctx.count("import:" + ("ok" if st == "ok" else "failed"))
+            if st != "ok":
+                ctx.fail("oracle", "a generated package fails to import under a supported option combination",
+                         cls=f"import-failure:{v[0]}", input=small_input(pkg, v), observed=st)
+        for full, c in d["classes"].items():
+            if "error" in c:
+                ctx.fail("oracle", "a generated message class cannot be introspected / instantiated", cls="class-error",
+                         input=small_input(types_pkg[full], v, message=full), observed=c["error"])
+        for key, sv in d["services"].items():
+            if "error" in sv:
+                ctx.fail("oracle", "the signatures of a generated Stub/Base class do not resolve", cls="service-error",
+                         input=small_input(key.split(":")[0], v, service=key), observed=sv["error"])
+        # enums against the schema
+        for s in schemas:
+            for full, pk, e in G.all_enums(s):
+                got = d["enums"].get(full)
+                if got is None:
+                    continue
+                want = [[pythonize_enum_member_name(n, _flat_name(full, pk)), val] for n, val in e["values"]]
+                ctx.count("enum")
+                if got != want:
+                    ctx.fail("oracle", "enum members differ from the schema", cls="enum-diff", input=small_input(pk, v, enum=full),
+                             observed=got, expected=want)
+        if ref is None or v == ref_v:
+            continue
+        # pairwise with the default configuration
+        for full, c in d["classes"].items():
+            r = ref["classes"].get(full)
+            if "rows" not in c or r is None or "rows" not in r:
+                continue
+            ctx.count("class-table-compared")
+            for a, b in zip(c["rows"], r["rows"]):
+                a2 = dict(a)
+                if v[1] and a["group"] is not None:
+                    # the one permitted difference: optional=True on oneof members (and the Optional[...] hint that goes with it)
+                    if a["optional"] is not True:
+                        ctx.fail("oracle", "pydantic variant: oneof member without optional=True", cls="table-diff",
+                                 input=small_input(types_pkg[full], v, message=full), observed=a)
+                    a2["optional"] = b["optional"]
+                    if a["hint"] == b["hint"] + [["none"]]:
+                        a2["hint"] = b["hint"]
+                if a2 != b or len(c["rows"]) != len(r["rows"]):
+                    ctx.fail("oracle", "field tables differ between option variants", cls="table-diff",
+                             input=small_input(types_pkg[full], v, message=full), observed=a, expected=b)
+                    break
+            if c.get("default_bytes") != r.get("default_bytes"):
+                ctx.fail("oracle", "default instance encodes differently between option variants", cls="value-diff",
+                         input=small_input(types_pkg[full], v, message=full))
+            if bool(c.get("pydantic")) != v[1]:
+                ctx.fail("oracle", "pydantic_dataclasses option does not decide whether the class is a pydantic dataclass", cls="table-diff",
+                         input=small_input(types_pkg[full], v, message=full))
+        for key, sv in d["services"].items():
+            r = ref["services"].get(key)
+            if r is None or "error" in sv or "error" in r:
+                continue
+            ctx.count("service-compared")
+            if _svc_norm(sv) != _svc_norm(r):
+                ctx.fail("oracle", "resolved Stub/Base signatures differ between option variants", cls="service-diff",
+                         input=small_input(key.split(":")[0], v, service=key), observed=_svc_norm(sv), expected=_svc_norm(r))
+        for case, a, b in zip(values, d["values"], ref["values"]):
+            pkg = types_pkg[case["cls"]]
+            if d["packages"].get(pkg) != "ok" or ref["packages"].get(pkg) != "ok":
+                continue
+            ctx.count("value-case-compared")
+            ctx.cov["evaluations"] += 1
+            if case["fields"]:
+                ctx.seen_nontrivial(("value", case["cls"], json.dumps(case["fields"], sort_keys=True)[:200], vn))
+            if a.get("construct") != b.get("construct"):
+                neg = case.get("neg_enum") and v[1]
+                ctx.fail("oracle", "the pydantic variant rejects a negative enum number that the default configuration encodes" if neg
+                         else "a value constructible under the default configuration is rejected under another option combination",
+                         cls="pydantic-negative-enum" if neg else "construct-diff",
+                         input=small_input(pkg, v, value=case), observed=a.get("detail", a), expected=b.get("construct"))
+                continue
+            for k in ("bytes", "json", "len", "reparse_bytes", "reparse_json"):
+                if a.get(k) != b.get(k):
+                    ctx.fail("oracle", f"equal field values give different {k} under different option combinations", cls="value-diff",
+                             input=small_input(pkg, v, value=case), observed=str(a.get(k))[:600], expected=str(b.get(k))[:600])
+                    break
+            else:
+                fa, fb = a.get("from_json_bytes"), b.get("from_json_bytes")
+                if fa != fb and not str(fa).startswith("ERR") and not str(fb).startswith("ERR"):
+                    ctx.fail("oracle", "from_json(to_json(x)) encodes differently under different option combinations", cls="value-diff",
+                             input=small_input(pkg, v, value=case), observed=fa, expected=fb)
+                elif fa != fb:
+                    ctx.count("from_json-differs-by-error(C04)")
+
+
+def _flat_name(full, pkg):
+    rel = full[len(pkg) + 2:]
+    return "_" + rel.replace(".", "_")
+
+
+def _svc_norm(sv):
+    """parameter names of google-typed requests carry the (variant dependent) alias: compare by position"""
+    out = {}
+    for m, sig in sv.items():
+        if isinstance(sig, dict) and m != "__mapping__":
+            out[m] = [sig[k] for k in sig]
+        else:
+            out[m] = sig
+    return out
+
+
+def _meta_cv(r):
+    mt = r["map_types"]
+    return lib.cl([lib.cz(r["number"]), cb(r["proto_type"]),
+                   lib.CN if not mt else lib.cl([cb(mt[0]), cb(mt[1])]),
+                   copt_cb(r["group"]), copt_cb(r["wraps"]), lib.cbool(r["optional"])])
+
+
+# ======================================================================================
+# stage D: option strings
+# ======================================================================================
+def stage_options(ctx):
+    params = ["", "typing.direct", "typing.root", "typing.310", "pydantic_dataclasses",
+              "typing.direct,pydantic_dataclasses", "typing.root,pydantic_dataclasses", "typing.310,pydantic_dataclasses",
+              "pydantic_dataclasses,typing.310", "pydantic_dataclasses,typing.root", "INCLUDE_GOOGLE,typing.root",
+              "typing.bogus", "typing.", "typing.direct,typing.root", "typing.310,typing.310", "typing.root,,pydantic_dataclasses",
+              "pydantic_dataclasses2", "xtyping.310", "typing.Root", " typing.root", "typing.root "]
+    pairs, descr = [], []
+    for p in params:
+        try:
+            files = T1.run_plugin(p)
+            src = files["c18probe/__init__.py"]
+            ex = T1.extract(src)["classes"]
+            ann = ex["Resp"]["fields"][0][1]
+            comp = {"List[str]": 0, "typing.List[str]": 1, '"list[str]"': 2}.get(ann)
+            pyd = "from pydantic.dataclasses import dataclass" in src
+            exp = f"(CL [{lib.cz(comp if comp is not None else 99)}; {lib.cbool(pyd)}])"
+            obs = (ann, pyd)
+        except ValueError as e:
+            exp, obs = lib.ce("EOther"), repr(e)
+        except Exception as e:  # noqa
+            ctx.fail("oracle", "generate_code raised an unexpected exception on an option string", cls="options", input={"parameter": p}, observed=repr(e))
+            continue
+        pairs.append((f"cv_of_options (parse_options {cs(p)})", exp))
+        descr.append((p, obs))
+        ctx.count("option-string")
+    ctx.cov["evaluations"] += len(pairs)
+    bad = lib.coq_compare(ctx, "c18d", IMPORTS_MODEL, pairs)
+    for i in bad[:5]:
+        ctx.fail("corr", "option parsing: model and generate_code disagree", cls="options", input={"parameter": descr[i][0]},
+                 observed_impl=descr[i][1], expected_model=lib.coq_eval(ctx, IMPORTS_MODEL, pairs[i][0]),
+                 theorem_or_correspondence="T2 Model/Typing.v parse_options <-> plugin/parser.py")
+
+
+# ======================================================================================
+def load_corpus():
+    d = os.path.join(lib.VERIF, "corpus")
+    out = []
+    if os.path.isdir(d):
+        for fn in sorted(os.listdir(d)):
+            if fn.startswith("C18") and fn.endswith(".json"):
+                try:
+                    out.append(json.load(open(os.path.join(d, fn))))
+                except Exception:  # noqa
+                    pass
+    return out
+
+
+def corpus_schema(entry, sid):
+    """corpus entries are stored with the placeholder package root `ROOT`; instantiate it"""
+    txt = json.dumps(entry["schema"]).replace("ROOT", sid)
+    s = json.loads(txt)
+    s["id"] = sid
+    return s
+
+
+class _Sub:
+    """view of the context with its own random stream (stages A/B/D run next to the protoc calls of stage C)"""
+
+    def __init__(self, ctx, seed):
+        import random
+        self.__dict__["_ctx"] = ctx
+        self.__dict__["rng"] = random.Random(seed)
+
+    def __getattr__(self, k):
+        return getattr(self._ctx, k)
+
+
 def run(ctx):
-    raise NotImplementedError
+    import threading
+
+    rng = ctx.rng
+    side_err = []
+
+    def side():
+        sub = _Sub(ctx, ctx.seed * 7919 + 1)
+        try:
+            t0 = time.time()
+            stage_compilers(sub)
+            ctx.notes.append(f"stage A+B {time.time() - t0:.1f}s")
+            t0 = time.time()
+            stage_options(sub)
+            ctx.notes.append(f"stage D {time.time() - t0:.1f}s")
+        except Exception:  # noqa
+            side_err.append(traceback.format_exc())
+
+    th = threading.Thread(target=side)
+    th.start()
+    nbatches = 1 if not ctx.thorough else 6
+    per_batch = 7 if not ctx.thorough else 14
+    try:
+        for bi in range(nbatches):
+            t0 = time.time()
+            schemas = []
+            if bi == 0:
+                schemas.append(G.systematic_schema(rng, "s0"))
+                for ci, entry in enumerate(load_corpus()):
+                    try:
+                        schemas.append(corpus_schema(entry, f"k{ci}"))
+                    except Exception as e:  # noqa
+                        ctx.notes.append(f"corpus entry {ci} unusable: {e!r}")
+            for i in range(per_batch):
+                schemas.append(G.random_schema(rng, f"b{bi}r{i}", size=None if i % 3 else 4))
+            for s in schemas:
+                if "values" not in s:
+                    G.make_values(rng, s, per_message=2 if not ctx.thorough else 4)
+            ctx.count("schemas", len(schemas))
+            stage_translation(ctx, schemas, f"b{bi}")
+            ctx.notes.append(f"stage C batch {bi}: {len(schemas)} schemas, {time.time() - t0:.1f}s")
+    finally:
+        th.join()
+    if side_err:
+        raise RuntimeError("stage A/B/D failed:\n" + side_err[0])
+
+
+TRUSTED = [
+    "Coq 8.16.1 kernel and vm_compute (no native_compute); full .vo build via coq_makefile",
+    "axioms: none (every theorem of Properties/C18.v is 'Closed under the global context')",
+    "hand-written model coq/Model/Typing.v tied to the plugin by (a) string-level correspondence of the three TypingCompiler classes, "
+    "(b) translation validation: every field line and every annotation site of every generated module, under all six option "
+    "combinations, equals the model's text (vm_compute inside Coq), (c) the denotation of the generated text equals the type the "
+    "runtime resolved for the imported class",
+    "translator harness/gen_c18.py (T1): scalar py types, wrapper table, TYPE_* constants, the quoting behaviour of every template site "
+    "(determined by running the real generate_code on a probe and comparing with the real compiler objects), pydantic enum bound",
+    "the denotation `denote` is a specification of how Python reads an annotation; it is validated against typing.get_type_hints of "
+    "CPython 3.12 on every text the printers emit (T3) but is not derived from CPython",
+    "Python side: own .proto generator (harness/c18_protogen.py), tokenizer-based extraction of annotation text, per-variant "
+    "import subprocesses, canonicalisation of resolved type hints",
+    "grpc_tools.protoc 1.x as the front end; ruff is absent and replaced by a pass-through shim (import sorting / unused-import removal "
+    "/ formatting are not exercised)",
+    "not modelled: Jinja rendering as such, Python's importer, pydantic's validation beyond the enum bound and construction of the "
+    "generated values (these are exercised for real by the oracle but no theorem speaks about them)",
+]
+ASSUMPTIONS = [
+    "annotation text is ASCII; names are dotted Python identifiers other than None",
+    "message / enum reference strings (get_type_reference) and pythonised names are inputs of the model (C13 / C19 own them)",
+    "a string annotation is evaluated by Python as the expression it contains; a string literal ends at the next double quote",
+]
+RULE = ("schemas: one systematic schema per run (every scalar kind x {singular, optional, repeated, oneof, map value}, every map key kind, "
+        "enums with negatives and int32 extremes, nested / recursive / cross-package / well-known types, services with the four "
+        "cardinalities) plus random schemas from the same grammar, each under 3 typing x 2 dataclass options; "
+        "non-trivial = a field / method / value case with at least one non-default feature; distinct = distinct "
+        "(label, kind, google?, map key, variant) cells, distinct method shapes per variant, distinct type ASTs, distinct value cases")
 
 
 def finish(ctx):
-    raise NotImplementedError
+    return lib.finish(
+        ctx, "proof",
+        "Coq theorems over a Gallina mirror of the typing compilers, template quoting and field compilers + translation validation of "
+        "real plugin output under all six option combinations + cross-variant oracle on imported classes",
+        ASSUMPTIONS, TRUSTED, RULE,
+        extra_cov={"exhaustive": False,
+                   "explanation": "theorems are unbounded (every type AST, every compiler, every site); the correspondence and the "
+                                  "oracle are sampled over generated schemas"})
 
 
 def replay(ctx, obj):
-    print(obj)
-    return 0
+    """re-run the schema of a replay file under the recorded options and report what happens"""
+    inp = obj.get("input") or {}
+    files = inp.get("files")
+    opts = inp.get("options", [])
+    if not files:
+        print(json.dumps(obj, indent=1)[:3000])
+        return 0
+    base = ctx.work
+    PU.shim_dir(base)
+    rc, out, out_dir = PU.generate(base, files, "c18replay", opts)
+    print(f"plugin rc={rc} options={opts}")
+    if rc != 0:
+        print(out[-2000:])
+        return 1
+    pkgs = sorted({os.path.dirname(os.path.relpath(os.path.join(r, f), out_dir)).replace(os.sep, ".")
+                   for r, _, fs in os.walk(out_dir) for f in fs if f == "__init__.py"} - {""})
+    failed = 0
+    for pkg in pkgs:
+        rc2, o2 = PU.run_in_subprocess(base, f"import importlib; importlib.import_module('c18replay.{pkg}'); print('imported')")
+        print(pkg, "ok" if rc2 == 0 else "FAILED: " + o2.strip().splitlines()[-1] if o2.strip() else "")
+        failed += rc2 != 0
+    if inp.get("value"):
+        print("value case:", json.dumps(inp["value"])[:800])
+    return 1 if failed else 0
